@@ -209,7 +209,7 @@ func (runInfo *runInfoStruct) runVarStmt(stmt *ast.VarStmt) {
 		if env, ok := runInfo.rv.Interface().(*env.Env); ok {
 			rvs[i] = reflect.ValueOf(env.DeepCopy())
 		} else {
-			rvs[i] = runInfo.rv
+			rvs[i] = detach(runInfo.rv)
 		}
 	}
 
@@ -257,7 +257,7 @@ func (runInfo *runInfoStruct) runLetsStmt(stmt *ast.LetsStmt) {
 		if env, ok := runInfo.rv.Interface().(*env.Env); ok {
 			rvs[i] = reflect.ValueOf(env.DeepCopy())
 		} else {
-			rvs[i] = runInfo.rv
+			rvs[i] = detach(runInfo.rv)
 		}
 	}
 
@@ -720,6 +720,10 @@ func (runInfo *runInfoStruct) runReturnStmt(stmt *ast.ReturnStmt) {
 	case 1:
 		runInfo.expr = stmt.Exprs[0]
 		runInfo.invokeExpr()
+		if runInfo.err == nil {
+			// the result is the value at the return statement, whatever deferred calls store later
+			runInfo.rv = detach(runInfo.rv)
+		}
 		return
 	}
 	rvs := make([]interface{}, len(stmt.Exprs))
